@@ -88,7 +88,7 @@ def analyse(item):
     res["schedules"] = es.simulate_schedules(wd, "MCsim", cfg, txt, progs, 12 if tier == "quick" else 150, seed)
     res["wall"] = round(time.time() - t0, 1)
     shutil.rmtree(wd, ignore_errors=True)
-    json.dump(res, open(cfile, "w"))
+    rv.dump_json_atomic(cfile, res)
     return res
 
 
